@@ -2,7 +2,7 @@ import PcbV.Model.Cassette
 namespace PcbV.Drv.C29
 open PcbV PcbV.Cassette
 
-/-  Request: `<fixed:0|1><skipBody:0|1><rel:0|1> op;op;…` — a whole tape history in one line.
+/-  Request: `<fixed:0|1><skipBody:0|1><rel:0|1><drain:0|1> op;op;…` — a whole tape history in one line.
     ops:  ow,<namehex>,<type letter value>,<seg>,<offs>,<len>   open for output
           w,<hex>                                               CassetteStream.write
           c                                                     close the BASIC file
@@ -18,7 +18,7 @@ def showMsg (m : Msg) : String :=
 def showTape (t : Tape) : String :=
   if t.isEmpty then "t:-" else "t:" ++ "/".intercalate (t.map fun r => toString r.length ++ "x" ++ toHex r.flatten)
 
-def step (fixed skip rel : Bool) (s : St) (op : String) : St × String :=
+def step (fixed skip rel drain : Bool) (s : St) (op : String) : St × String :=
   match op.splitOn "," with
   | ["ow", name, ft, seg, offs, len] =>
     match ofHex name, ft.toNat?, seg.toNat?, offs.toNat?, len.toNat? with
@@ -31,8 +31,8 @@ def step (fixed skip rel : Bool) (s : St) (op : String) : St × String :=
     match ofHex hex with
     | some d => (write fixed s d, "w")
     | none => (s, "bad-op")
-  | ["c"] => (closeFile fixed s, "c")
-  | ["re"] => (attach (closeStream fixed s).tape, "re")
+  | ["c"] => (closeFileWith drain fixed s, "c")
+  | ["re"] => (attach (closeStreamWith drain fixed s).tape, "re")
   | ["or", name, types] =>
     match ofHex name, ofHex types with
     | some name, some types =>
@@ -56,15 +56,15 @@ def step (fixed skip rel : Bool) (s : St) (op : String) : St × String :=
   | ["t"] => (s, showTape s.tape)
   | _ => (s, "bad-op")
 
-def runOps (fixed skip rel : Bool) : St → List String → List String
+def runOps (fixed skip rel drain : Bool) : St → List String → List String
   | _, [] => []
-  | s, op :: ops => let (s', out) := step fixed skip rel s op; out :: runOps fixed skip rel s' ops
+  | s, op :: ops => let (s', out) := step fixed skip rel drain s op; out :: runOps fixed skip rel drain s' ops
 
 def handle : List String → String
   | [flags, ops] =>
     match flags.toList with
-    | [a, b, c] =>
-      " ".intercalate (runOps (a == '1') (b == '1') (c == '1') (attach []) (ops.splitOn ";"))
+    | [a, b, c, d] =>
+      " ".intercalate (runOps (a == '1') (b == '1') (c == '1') (d == '1') (attach []) (ops.splitOn ";"))
     | _ => "bad-op"
   | _ => "bad-op"
 
